@@ -458,6 +458,11 @@ func expand() {
 			fixCalls(s.H)
 			n++
 			enc.Encode(bcase{Src: "tlc", H: s.H, Nx: alphabet(), Prime: n%2 == 0})
+			if len(s.H) > 0 {
+				// Reset leads back to the initial abstract state, which the model reaches with the empty sequence: the
+				// reuse of THIS concrete builder after Reset is covered by replaying every call after it as well
+				enc.Encode(bcase{Src: "tlc+reset", H: append(append([]call{}, s.H...), mk("Reset", nil)), Nx: alphabet(), Prime: n%2 == 1})
+			}
 		}
 		if err != nil {
 			break
